@@ -201,6 +201,20 @@ void gen_mutants(Ctx &cx, const Base &b, const Sink &sink, bool light) {
       bytes M = F; M[o] = (uint8_t)v;
       emit("hdr-value", o, v, M);
     }
+  // 7b. a mode byte set to every value TOGETHER with a second, authenticated change (two cooperating weaknesses:
+  //     a header value that switches authentication off must not let another modification through)
+  if (!light)
+    for (int o = 8; o <= 9; o++)
+      for (int v = 0; v < 256; v++)
+        for (int second = 0; second < 4; second++) {
+          bytes M = F;
+          M[o] = (uint8_t)v;
+          if (second == 0) M[bodyoff + (size_t)(v % (F.size() - bodyoff))] ^= 0x01;          // body bit
+          else if (second == 1) M[48 + (size_t)(v % 16)] ^= 0x80;                              // IV bit
+          else if (second == 2) { if (M.size() >= bodyoff + 32) M.resize(M.size() - 16); else M.insert(M.end(), 16, 0x5a); } // whole block removed / added
+          else { memset(M.data() + 10, 0, 38); M[bodyoff] ^= 0xff; }                            // tag wiped + body change
+          emit("hdr-value+second", o, v * 4 + second, M);
+        }
   // 8. unauthenticated area randomised together with hostile mode bytes (reaches the pipeline)
   for (int k = 0; k < (light ? 8 : 40); k++) {
     bytes M = F;
